@@ -24,6 +24,15 @@ SPEC = {
             'hostile corpus and assertion instances x all quantifier forms', 1000),
     'C10': ('rv.dsl', 'lookbehinds are accepted iff fixed width',
             'assertion operands on both sides of the fixed-width line x 4 lookbehind kinds x spellings', 500),
+    'C06': ('rv.cls', 'class constructors denote exactly the requested character sets',
+            'AnyFrom over all singletons/pairs/sampled tuples of a 70-character hostile basis (str and token arguments), '
+            'AnyBetween/AnyButBetween over all ordered pairs, every named/negated/token class, documented invalid arguments; '
+            'each emitted class is scanned over all 1,114,112 code points and compared with the model set, under several '
+            'PYTHONHASHSEEDs and injected set-iteration orders; distinct = distinct (constructor, argument shapes)', 1000),
+    'C07': ('rv.cls', 'class union, subtraction and negation are exact set algebra',
+            'all A|B, A-B, ~A, ~~A over an 85-class basis, range pairs in all 13 Allen relations x gaps across bracket '
+            'metacharacters, random chains; result scanned over all of Unicode vs interval algebra on the operand models, '
+            'under several PYTHONHASHSEEDs and injected set-iteration orders', 1000),
 }
 
 TIERS = {
